@@ -42,6 +42,7 @@ class Module:
         self.funcs = {}  # qualname -> FunctionDef
         self.classes = {}  # qualname -> ClassDef
         self._index(self.tree, "", None)
+        self.attrs_recovered = normalise.recover_private_attrs(self)
         known = normalise.reference_functions().get(relpath)
         self.helpers_inlined = normalise.inline_new_helpers(self, known)
         self.helpers_inlined += normalise.nested_def_to_lambda(self, known)
@@ -61,6 +62,7 @@ class Module:
                 k += normalise.propagate_new_locals(fn, names)
                 if q in ref_tests:
                     rt = set(ref_tests[q])
+                    k += normalise.expand_ifexp(fn, rt)
                     k += normalise.orient_exprs(fn, rt)
                     k += normalise.orient_tests(fn, rt)
                     k += normalise.split_or_guards(fn, rt)
